@@ -4,7 +4,7 @@ import random
 from .. import gen, refs, configs, scriptrun as sr
 from ..core import Campaign, CaseResult, Violation, h
 
-N_QUICK = {"C01": 640, "C02": 640}
+N_QUICK = {"C01": 1400, "C02": 1400}
 N_THOROUGH = {"C01": 24000, "C02": 24000}
 
 BIAS = {
